@@ -268,12 +268,12 @@ def run_c20(ctx):
             ok_run = rng.random() < 0.85
             # one result in three comes from a backward simulation (mirrored logs and absence steps), also with
             # automatic tasks performed at absence steps
-            bw = rng.random() < 0.33
+            bw = rng.random() < 0.4
             sub_params = dict(params, absence=A, maxTime=(60 if ok_run else 1), initState=True, initLog=True)
             sub_params.pop("warmup", None)
             if bw:
-                sub_params["autoFlag"] = rng.random() < 0.8
-                if rng.random() < 0.8:
+                sub_params["autoFlag"] = rng.random() < 0.9
+                if rng.random() < 0.9:
                     # an automatic head task (performed last in the backward run) and absence steps around the END
                     # of the run: the step at which the run stops can then be an absence step
                     spec = json.loads(json.dumps(spec))
@@ -295,7 +295,7 @@ def run_c20(ctx):
             path = os.path.join(d, "sub%d.json" % i)
             subp.write_simple_json(path)
             success = subp.status == BaseProjectStatus.FINISHED_SUCCESS
-            remove = rng.random() < 0.5
+            remove = rng.random() < (0.8 if bw else 0.5)
             n_abs = len([a for a in set(A) if a < subp.time])
             # parent project: a chain  pre -> SUB -> post  (pre optional), one worker for the ordinary tasks
             sub = BaseSubProjectTask(name="SUB", ID="sub", file_path=path)
